@@ -403,6 +403,8 @@ def _inlinable_body(fn: ast.AST, retry: bool = True) -> typing.Optional[list]:
             equiv.canonical_tests(clone)
             equiv.sink_returns(clone)
             equiv.flatten_conditionals(clone)
+            if not any(isinstance(x, ast.Return) and x.value is not None and not (isinstance(x.value, ast.Constant) and x.value.value is None) for x in ast.walk(clone)):
+                equiv.drop_tail_returns(clone)
         ast.fix_missing_locations(clone)
         for x in ast.walk(clone):
             if hasattr(x, 'lineno'):
@@ -421,6 +423,66 @@ def _inlinable_body(fn: ast.AST, retry: bool = True) -> typing.Optional[list]:
             if isinstance(x, FUNC + (ast.ClassDef,)):
                 return None
     return body
+
+
+def _tail_lists(seq: list) -> typing.Iterator[list]:
+    """Statement lists in tail position of ``seq`` (the list itself, and recursively the arms of a final if / try / with)."""
+    yield seq
+    if not seq:
+        return
+    last = seq[-1]
+    if isinstance(last, ast.If):
+        yield from _tail_lists(last.body)
+        yield from _tail_lists(last.orelse)
+    elif isinstance(last, ast.Try) and not last.finalbody and not last.orelse:
+        yield from _tail_lists(last.body)
+        for h in last.handlers:
+            yield from _tail_lists(h.body)
+    elif isinstance(last, (ast.With, ast.AsyncWith)):
+        yield from _tail_lists(last.body)
+
+
+def _tail_return_body(fn: ast.AST) -> typing.Optional[list]:
+    """Body of a helper all of whose ``return`` statements stand in tail position (guard clauses folded into else arms
+    first): such a helper can be spliced into a call that is the whole value of a statement by turning each ``return E``
+    into that statement with E.  None if the helper is not of that shape."""
+    from . import equiv
+
+    clone = ast.parse(ast.unparse(fn)).body[0]
+    equiv.strip_meta(clone)
+    for _ in range(3):
+        equiv.canonical_tests(clone)
+        equiv.flatten_conditionals(clone)
+    body = clone.body
+    tails = {id(lst[-1]) for lst in _tail_lists(body) if lst and isinstance(lst[-1], ast.Return)}
+    for st in body:
+        for x in ast.walk(st):
+            if isinstance(x, (ast.Yield, ast.YieldFrom, ast.Await, ast.Global, ast.Nonlocal)) or isinstance(x, FUNC + (ast.ClassDef, ast.Lambda)):
+                return None
+            if isinstance(x, ast.Return) and id(x) not in tails:
+                return None
+    if not tails:
+        return None
+    ast.fix_missing_locations(clone)
+    for x in ast.walk(clone):
+        if hasattr(x, 'lineno'):
+            x.lineno = x.end_lineno = getattr(fn, 'lineno', 1)
+    return body
+
+
+def _all_paths_return(seq: list) -> bool:
+    if not seq:
+        return False
+    last = seq[-1]
+    if isinstance(last, (ast.Return, ast.Raise)):
+        return True
+    if isinstance(last, ast.If):
+        return bool(last.orelse) and _all_paths_return(last.body) and _all_paths_return(last.orelse)
+    if isinstance(last, ast.Try) and not last.finalbody and not last.orelse:
+        return _all_paths_return(last.body) and all(_all_paths_return(h.body) for h in last.handlers)
+    if isinstance(last, (ast.With, ast.AsyncWith)):
+        return _all_paths_return(last.body)
+    return False
 
 
 def inline_unknown_helpers(mod: 'Module', pinned: dict) -> bool:
@@ -462,6 +524,10 @@ def inline_helpers(tree: ast.AST, defs: dict, select: typing.Callable[[str, ast.
             continue
         kind = _helper_kind(node, owner)
         body = _inlinable_body(node) if kind else None
+        tail_mode = False
+        if kind and body is None:
+            body = _tail_return_body(node)
+            tail_mode = body is not None
         if not kind or body is None:
             continue
         params = [a.arg for a in node.args.args]
@@ -489,6 +555,25 @@ def inline_helpers(tree: ast.AST, defs: dict, select: typing.Callable[[str, ast.
             continue
         funcs = {id(c.func) for c in sites}
         other_refs = [x for x in ast.walk(scope) if ((isinstance(x, ast.Attribute) and x.attr == name) or (isinstance(x, ast.Name) and x.id == name)) and id(x) not in funcs and id(x) not in inside]
+        if other_refs and not tail_mode and kind == 'plain' and len(body) == 1 and isinstance(body[0], ast.Return) and body[0].value is not None and all(isinstance(x, ast.Name) and isinstance(x.ctx, ast.Load) for x in other_refs) and not node.args.defaults:
+            # a one-expression function handed around as a value is the lambda of that expression
+            for x in other_refs:
+                lam = ast.copy_location(ast.Lambda(args=clone(node.args), body=clone(body[0].value)), x)
+                for a in ast.walk(lam.args):
+                    if isinstance(a, ast.arg):
+                        a.annotation = None
+                par = parent(x)
+                for fld, val in ast.iter_fields(par):
+                    if val is x:
+                        setattr(par, fld, lam)
+                    elif isinstance(val, list):
+                        for j, y in enumerate(val):
+                            if y is x:
+                                val[j] = lam
+            ast.fix_missing_locations(tree)
+            set_parents(tree)
+            other_refs = []
+            changed = True
         if other_refs:
             continue  # passed around as a value / recursive: not a plain call-only helper
         helper_locals = {x.id for st in body for x in ast.walk(st) if isinstance(x, ast.Name) and isinstance(x.ctx, ast.Store)}
@@ -546,7 +631,7 @@ def inline_helpers(tree: ast.AST, defs: dict, select: typing.Callable[[str, ast.
 
             stmts = [Sub().visit(st) for st in stmts]
             ret = None
-            if stmts and isinstance(stmts[-1], ast.Return):
+            if not tail_mode and stmts and isinstance(stmts[-1], ast.Return):
                 ret = stmts[-1].value
                 stmts = stmts[:-1]
             return prelude, stmts, ret
@@ -580,6 +665,28 @@ def inline_helpers(tree: ast.AST, defs: dict, select: typing.Callable[[str, ast.
                 continue
             prelude, stmts, ret = inst
             k = next(i for i, x in enumerate(seq) if x is st)
+            if tail_mode:
+                if not whole or (not isinstance(st, ast.Expr) and not _all_paths_return(stmts)):
+                    continue
+                for lst in list(_tail_lists(stmts)):
+                    if lst and isinstance(lst[-1], ast.Return):
+                        r = lst[-1]
+                        value = r.value if r.value is not None else ast.Constant(value=None)
+                        if isinstance(st, ast.Return):
+                            continue
+                        if isinstance(st, ast.Expr):
+                            lst[-1:] = [] if _simple_expr(value) else [ast.copy_location(ast.Expr(value=value), r)]
+                            if not lst:
+                                lst.append(ast.copy_location(ast.Pass(), r))
+                        else:
+                            new_st = copy.copy(st)
+                            new_st.value = value
+                            lst[-1] = ast.copy_location(new_st, r)
+                seq[k:k + 1] = prelude + stmts
+                done += 1
+                ast.fix_missing_locations(container)
+                set_parents(tree)
+                continue
             if whole:
                 if isinstance(st, ast.Expr):
                     tail = [] if ret is None or _simple_expr(ret) else [ast.Expr(value=ret)]
